@@ -89,10 +89,14 @@ Fixpoint flatten (t : tree) : list (path * val) :=
 Fixpoint chain (p : path) (v : val) : tree :=
   match p with [] => Leaf v | k :: q => Node [(k, chain q v)] end.
 
-(* ---- get_broadcast_change_iter: the walk
+(* ---- HISTORICAL: get_broadcast_change_iter before the fix (repo commit
+   bdf8ea5).  Its walk
        while isinstance(value, dict): key, value = next(iter(value.items()))
-   follows only the FIRST key of each nested dict; an empty dict makes
-   next() raise StopIteration inside the generator (RuntimeError). *)
+   followed only the FIRST key of each nested dict; an empty dict made
+   next() raise StopIteration inside the generator (RuntimeError).
+   [first_leaf], [change_walk] and [change_iter_pre_fix] are kept only for the
+   theorems that document the old defect (the c22_pre_fix theorems of Props/C22.v); the
+   model of the current code uses [change_iter_fixed] below. *)
 Fixpoint first_leaf (t : tree) : option (path * val) :=
   match t with
   | Leaf v => Some ([], v)
@@ -151,8 +155,21 @@ Fixpoint change_walk (first : tree -> option (path * val)) (ms : list msetting)
           end
       end
   end.
-Definition change_iter (ms : list msetting) : list (path * val) * bool :=
+Definition change_iter_pre_fix (ms : list msetting) : list (path * val) * bool :=
   change_walk first_leaf (sort_by ms_leb ms).
+
+(* ---- get_broadcast_change_iter (current code): for each modified setting,
+   sorted by (point, namespace), _iter_setting_leaves yields EVERY leaf,
+   depth first in dict order; a non-dict setting yields nothing; it never
+   raises. ---- *)
+Definition expand (m : msetting) : list (path * val) :=
+  match snd m with
+  | Leaf _ => []
+  | t => map (fun qv => (fst (fst m) :: snd (fst m) :: fst qv, snd qv)) (flatten t)
+  end.
+Definition change_iter_fixed (ms : list msetting) : list (path * val) * bool :=
+  (flat_map expand (sort_by ms_leb ms), false).
+Definition change_iter := change_iter_fixed.
 
 (* ---- broadcast_states table: primary key (point, namespace, key) ---- *)
 Definition db := list (path * val).
@@ -201,7 +218,7 @@ Definition db_del (recs : list (path * val)) (d : db) : db :=
   fold_left (fun d r => db_delete (fst r) d) recs d.
 
 (* [ci]: the change iterator in use (the code's [change_iter], or the
-   proposed fix [change_iter_fixed] below) *)
+   historical [change_iter_pre_fix]) *)
 Definition iter := list msetting -> list (path * val) * bool.
 Definition put_with (ci : iter) (tr : C3.tree) pts nss settings (st : state) : state * bool :=
   let (recs, raised) := ci (put_mods tr pts nss settings) in
@@ -321,15 +338,6 @@ Definition run_with (ci : iter) (tr : C3.tree) (h : list op) : state :=
   fold_left (fun st o => fst (step_with ci tr st o)) h init.
 Definition run := run_with change_iter.
 
-(* ---- the proposed fix of get_broadcast_change_iter: iterate over ALL the
-   leaves of each modified setting (proposed_fixes/C22-*.diff) ---- *)
-Definition expand (m : msetting) : list (path * val) :=
-  match snd m with
-  | Leaf _ => []
-  | t => map (fun qv => (fst (fst m) :: snd (fst m) :: fst qv, snd qv)) (flatten t)
-  end.
-Definition change_iter_fixed : iter :=
-  fun ms => (flat_map expand (sort_by ms_leb ms), false).
 
 (* ---- correspondence interface ---- *)
 (* monomorphic pair constructors: case files elaborate ~30x faster with them *)
